@@ -8,6 +8,7 @@ CONSTANTS
   MB = 1000
   MaxFaults = 1
   MaxReqLen = 2
+  Chunked = TRUE
   Variant = "noprotect"
 VIEW View
 INVARIANT NoC18Violation
